@@ -17,6 +17,7 @@ from typing import List, Union
 
 from sympy import Symbol
 
+from .. import _verif
 from . import gates
 from .qcircuit import QCircuit
 
@@ -105,6 +106,9 @@ class QCircuitEnhanced(QCircuit):
             anc = self.add_ancilla(is_free=False)
         else:
             anc = self.free_ancilla_lst.pop()
+
+        if _verif.ON:
+            _verif.emit("qe.getfree", anc=int(anc), n_qubits=int(self.num_qubits))
 
         return anc
 
